@@ -51,17 +51,20 @@ MonStreamTx(m, e) ==
     [] OTHER -> m                   \* CNXN / AUTH: the handshake monitor (AdbAuth) judges those
 
 (* ---- a device packet consumed off the wire by host thread e.t: e = [t, cmd, a0, a1] ---------------- *)
+\* the stream a device packet belongs to: its arg1, unless the device used the legacy zero ids (then the environment names it in `sl`)
+StreamOf(e) == IF "sl" \in DOMAIN e THEN e.sl ELSE e.a1
 MonRdStream(m, e) ==
-  LET l == e.a1 s == m.st[l] IN
+  LET l == StreamOf(e) s == m.st[l] IN
     CASE e.cmd = "OKAY" -> IF s.ph = "opening" THEN [m EXCEPT !.st[l].ph = "open", !.st[l].rid = e.a0]
                            ELSE [m EXCEPT !.st[l].hostUn = FALSE]
-      [] e.cmd = "WRTE" -> [m EXCEPT !.st[l].devUn = @ + 1]
+      [] e.cmd = "WRTE" -> IF s.ph = "opening" THEN m        \* data before the OPEN was answered: the device is out of line, nothing is owed for it
+                           ELSE [m EXCEPT !.st[l].devUn = @ + 1]
       [] e.cmd = "CLSE" -> IF s.ph = "opening" /\ e.a0 = Zero
                            THEN [m EXCEPT !.st[l].devClosed = TRUE, !.st[l].hostClosed = TRUE]     \* the device refused the OPEN: the stream never existed, its id is free again
                            ELSE [m EXCEPT !.st[l].devClosed = TRUE]
       [] OTHER -> m
 MonRd(m, e) ==
-  LET l == e.a1 IN
+  LET l == StreamOf(e) IN
   IF e.cmd = "CNXN" THEN [m EXCEPT !.maxdata = e.a1]
   ELSE IF l \notin DOMAIN m.st THEN m
   ELSE LET m1 == MonRdStream(m, e) s == m.st[l] IN
@@ -71,7 +74,7 @@ MonRd(m, e) ==
 
 (* ---- the device puts a packet on the wire: e = [cmd, a0, a1, syms] -------------------------------- *)
 MonDv(m, e) ==
-  LET l == e.a1 IN
+  LET l == StreamOf(e) IN
   IF e.cmd = "WRTE" /\ l \in DOMAIN m.st
   THEN [m EXCEPT !.st[l].nsent = @ + 1, !.st[l].wrote = Append(@, e.syms)]
   ELSE m
